@@ -978,9 +978,11 @@ pub fn gen_co_case(bytes: &[u8], cp: &CoProfile) -> CoCase {
             }
             _ => {
                 if cp.saturate {
-                    Adapter::Limit(c.weighted(&[(1usize, 30), (2, 30), (3, 20), (5, 8), (0, 12)]))
+                    Adapter::Limit(c.weighted(&[(1usize, 30), (2, 30), (3, 20), (5, 8), (0, 12), (usize::MAX, 2), (1usize << 33, 1)]))
                 } else {
-                    Adapter::Limit(c.weighted(&[(0usize, 20), (1, 25), (2, 25), (3, 15), (5, 15)]))
+                    // "all limits n": a huge limit is legal and means unlimited in practice (seeded change P10-a
+                    // pre-sizes a table with it)
+                    Adapter::Limit(c.weighted(&[(0usize, 20), (1, 25), (2, 25), (3, 15), (5, 15), (usize::MAX, 4), (1usize << 33, 2), (u32::MAX as usize, 1)]))
                 }
             }
         });
